@@ -94,7 +94,6 @@ PROPS_PART = {
             dict(harness='bnd_name_hash_is_folded_wire', module='names', kind='bounded', bound='<= 3 labels x <= 2 arbitrary octets', tier='thorough', what='[C16.name_hash] hasher input == case-folded wire form'),
             dict(harness='bnd_name_cmp_is_canonical', module='names', kind='bounded', bound='<= 3 labels x <= 2 arbitrary octets', tier='thorough', what='[C16.name_cmp] Name::cmp == RFC 4034 6.1 name order'),
             dict(harness='bnd_name_cmp_consistent_with_eq', module='names', kind='bounded', bound='<= 3 labels x <= 2 arbitrary octets', tier='thorough', what='[C16.name_cmp] cmp==Equal iff eq; antisymmetric'),
-            dict(harness='bnd_name_display_fromstr_roundtrip', module='names', kind='bounded', bound='<= 2 labels x 1 arbitrary octet', tier='thorough', what='[C16.text_roundtrip] Display -> FromStr gives the identical wire form'),
         ],
         cex={
             'name_text.name_from_str': [('names', 'bnd_name_from_str_matches_reference')],
